@@ -5,7 +5,7 @@ use crate::SpaceUsage;
 use std::mem::size_of;
 
 fn within(reported: usize, retained: usize, components: usize) -> bool {
-    let tol = retained / 32 + 48 * components;
+    let tol = retained / 32 + 24 * components;
     (if reported > retained { reported - retained } else { retained - reported }) <= tol
 }
 
